@@ -11,6 +11,9 @@ ERun(A, Z) ==
         n  == Len(A)
         row(i) == [jj \in 1..nv |-> Dot(A[i], Z[jj])]
     IN  [ii \in 1..nv |-> [jj \in 1..nv |-> SumTo([i \in 1..n |-> RMul(Z[ii][i], row(i)[jj])], n)]]
+\* a variant that only accumulates the upper triangle and mirrors it (right for symmetric A only);
+\* not what the code does - DeflationModel uses it to show that EInv / ProjInv tell the difference
+EMirrored(A, Z) == LET E == ERun(A, Z) IN [ii \in 1..Len(Z) |-> [jj \in 1..Len(Z) |-> IF jj >= ii THEN E[ii][jj] ELSE E[jj][ii]]]
 EDef(A, Z) == LET nv == Len(Z) IN [ii \in 1..nv |-> [jj \in 1..nv |-> Dot(Z[ii], MV(A, Z[jj]))]]       \* Z^T A Z
 \* project(b, x):  r = b - A x;  d[i] = sum_j Einv[i][j] * <z_j, r>;  x += sum_i d[i] z_i
 ProjectRun(A, Z, Einv, b, x) ==
